@@ -36,6 +36,7 @@ RelClause(e) ==
 \* natural element: the sample's activity of a product = sum over isotopes of activity(isotope, mass * fraction * abundance / 100)
 SampleClause(e) ==
   IF "exc" \in DOMAIN e THEN "SampleComputes"
+  ELSE IF "missing" \in DOMAIN e /\ e.missing # 0 THEN "SampleHasEveryProduct"
   ELSE IF \E i \in DOMAIN e.products :
             LET p == e.products[i]
                 RECURSIVE S(_)
